@@ -100,10 +100,13 @@ def run(ctx):
     an = ctx.E.an(aj)
     names = set()
     for b, info in an.calls():
-        if (info["callee"] or "").endswith("::extend"):
-            for bs in find_values(info["args"][1], lambda x: x[0] == "bytes"):
-                for m in re.findall(rb'"([a-z_]+)":', bs[1]):
-                    names.add(m + b'"')
+        c = info["callee"] or ""
+        # literal text reaches the output through extend()/push or through a format template (write!/format!)
+        if c.endswith("::extend") or c.endswith("::extend_from_slice") or c == "core::fmt::{impl#4}::new" or c.endswith("Arguments::new"):
+            for a in info["args"]:
+                for bs in find_values(a, lambda x: x[0] == "bytes"):
+                    for m in re.findall(rb'"([a-z_]+)":', bs[1]):
+                        names.add(m + b'"')
     okn = names == parsers.EVENT_NAMES
     s.add("S-COVER", aj, "writer-member-names", "as_json", aj.sp, PROVED if okn else VIOLATION,
           "the writer emits exactly the seven member names the parser dispatches on" if okn else
